@@ -90,6 +90,23 @@ def generate(tier, rng):
     for n in range(1, 5):
         for _ in range(20 if not thorough else 300):
             yield 'cbor.encdet 1 ' + ' '.join(c11.map_script(rng, n, 0, dup=True))
+    # one valid deterministic item for EVERY initial byte of the subset (each major type x each direct count 0..23, and 24..33 with a
+    # one-byte head): uint n, byte / text string of n bytes, array of n items, map of n pairs; bare, as array element, as map value
+    def uhead(mt, n): return bytes([mt * 32 + n]) if n < 24 else bytes([mt * 32 + 24, n])
+    for n in range(0, 34):
+        forms = [uhead(0, n), uhead(2, n) + b'\x01' * n, uhead(3, n) + b'a' * n, uhead(4, n) + b'\x00' * n, uhead(5, n) + b''.join(uhead(0, i) + b'\x00' for i in range(n))]
+        for it in forms:
+            yield 'cbor.det ' + it.hex()
+            yield 'cbor.det ' + (b'\x81' + it).hex()
+            yield 'cbor.det ' + (b'\xa1\x00' + it).hex()
+            yield 'cbor.det ' + (it + b'\x00').hex()
+    # nesting depth: maps inside map KEYS, inside map values, arrays inside arrays (the answer must arrive, and quickly)
+    for d in (2, 8, 16, 24, 28, 32, 48, 64, 200):
+        yield 'cbor.det ' + (b'\xa1' * d + b'\x00' * (d + 1)).hex()            # key position
+        yield 'cbor.det ' + (b'\xa1' * d + b'\x00' * d + b'\x18').hex()        # the same, ending in a truncated head
+        yield 'cbor.det ' + (b'\xa1\x00' * d + b'\x00').hex()                  # value position
+        yield 'cbor.det ' + (b'\x81' * d + b'\x00').hex()
+        yield 'cbor.det ' + (b'\xa2' * d + b'\x00\x00' * 0 + b'\x00' * 3).hex()
     for L in range(1, 4 if thorough else 3):
         for t in itertools.product(range(256), repeat=L):
             yield 'cbor.det ' + bytes(t).hex()
